@@ -146,6 +146,7 @@ def run(modname, tier, seed, procs=None, max_seconds=None, chunk=200, max_violat
     samples = []
     violations = []
     truncated = False
+    sig_count = {}
 
     def chunks():
         buf = []
@@ -177,9 +178,12 @@ def run(modname, tier, seed, procs=None, max_seconds=None, chunk=200, max_violat
                 break
             res = pending.pop(0).get()
             n_eval += res[0]
-            violations.extend(res[1])
+            for cv in res[1]:
+                sig_count[cv[1]["sig"]] = sig_count.get(cv[1]["sig"], 0) + 1
+                if sig_count[cv[1]["sig"]] <= 3:
+                    violations.append(cv)
             seen_nontrivial.update(res[2])
-            if len(violations) >= max_violations:
+            if len(sig_count) >= max_violations:
                 truncated = True
                 break
             if max_seconds and time.time() - t0 > max_seconds:
@@ -188,4 +192,4 @@ def run(modname, tier, seed, procs=None, max_seconds=None, chunk=200, max_violat
         pool.terminate()
     return {"evaluations": n_eval, "distinct_nontrivial": len(seen_nontrivial), "violations": violations,
             "samples": samples, "wall_s": time.time() - t0, "exhaustive": not truncated and tier in ("quick", "thorough"),
-            "truncated": truncated, "rule": mod.RULE, "bounds": mod.BOUNDS.get(tier, {})}
+            "truncated": truncated, "sig_counts": sig_count, "rule": mod.RULE, "bounds": mod.BOUNDS.get(tier, {})}
